@@ -323,7 +323,7 @@ impl Family for Determinism {
             }
             obs.extend(dumps.into_iter().map(|(k, v)| (format!("whole.{}", k), v)));
             // diagnostics quote the path as given: compare with every spelling of the root normalised away
-            let strip = |s: &str| s.replace(&format!("../{}/", dir_name), "").replace(&format!("{}/", dir_name), "").replace("./", "").replace("<ROOT>/proj/", "").replace("<ROOT>/", "");
+            let strip = |s: &str| s.replace(&format!("(../{})", dir_name), "(.)").replace("(<ROOT>/proj)", "(.)").replace(&format!("../{}/", dir_name), "").replace(&format!("{}/", dir_name), "").replace("./", "").replace("<ROOT>/proj/", "").replace("<ROOT>/", "").replace(&format!("(../{})", dir_name), "(.)").replace(&format!("({})", dir_name), "(.)").replace("(<ROOT>/proj)", "(.)").replace("(proj)", "(.)");
             let same = obs.len() == base_whole.len() && obs.iter().zip(base_whole.iter()).all(|((k1, v1), (k2, v2))| k1 == k2 && strip(&norm(vec![(k1.clone(), v1.clone())], &root)[0].1) == strip(v2));
             if same {
                 rep.tag(format!("path-spelling:{}:agrees", spelling));
